@@ -961,6 +961,23 @@ def vf_fstr(*parts):
     return SymStr(out)
 
 
+def vf_combine(d, t, tzinfo=True):
+    """datetime.combine replacement: exact for ordinary values; a symbolic date gives a symbolic datetime"""
+    import datetime as _dt  # pylint: disable=import-outside-toplevel
+
+    if not isinstance(d, SymDate):
+        return _dt.datetime.combine(d, t) if tzinfo is True else _dt.datetime.combine(d, t, tzinfo=tzinfo)
+    tz = t.tzinfo if tzinfo is True else tzinfo
+    if tz is None:
+        raise Unsupported("naive symbolic datetime (datetime.combine without tzinfo)")
+    if isinstance(t, SymTime):
+        raise Unsupported("datetime.combine with a symbolic time")
+    off = tz.utcoffset(None) // timedelta(minutes=1)
+    tod = ((t.hour * 60 + t.minute) * 60 + t.second) * 10**6 + t.microsecond
+    us = (d.o - _EPOCH_ORD).scale(US_PER_DAY) + tod - off * US_PER_MIN
+    return SymDatetime(us, off)
+
+
 def vf_int(x, *a):
     """int() replacement: exact for ordinary values; a symbolic number is truncated toward zero symbolically"""
     if a:
